@@ -308,7 +308,7 @@ pub fn init_date_prototype(interp: &mut Interpreter) {
 
     // Conversion methods
     interp.register_method(&proto, "toISOString", date_to_iso_string, 0);
-    interp.register_method(&proto, "toJSON", date_to_iso_string, 0);
+    interp.register_method(&proto, "toJSON", date_to_json, 1);
     interp.register_method(&proto, "valueOf", date_get_time, 0);
     interp.register_method(&proto, "toString", date_to_string, 0);
     interp.register_method(&proto, "toDateString", date_to_date_string, 0);
@@ -571,11 +571,31 @@ pub fn date_to_iso_string(
     let Some(c) = ts_to_components(ts) else {
         return Err(JsError::range_error("Invalid Date"));
     };
+    // Years outside 0..=9999 use the expanded form with a sign and six digits
+    let year = if (0..=9999).contains(&c.year) {
+        format!("{:04}", c.year)
+    } else if c.year < 0 {
+        format!("-{:06}", -(c.year as i64))
+    } else {
+        format!("+{:06}", c.year)
+    };
     let iso = format!(
-        "{:04}-{:02}-{:02}T{:02}:{:02}:{:02}.{:03}Z",
-        c.year, c.month, c.day, c.hour, c.minute, c.second, c.ms
+        "{}-{:02}-{:02}T{:02}:{:02}:{:02}.{:03}Z",
+        year, c.month, c.day, c.hour, c.minute, c.second, c.ms
     );
     Ok(Guarded::unguarded(JsValue::String(JsString::from(iso))))
+}
+
+/// Date.prototype.toJSON(): the ISO string, or null for an invalid date
+pub fn date_to_json(
+    interp: &mut Interpreter,
+    this: JsValue,
+    args: &[JsValue],
+) -> Result<Guarded, JsError> {
+    if get_date_timestamp(&this)?.is_nan() {
+        return Ok(Guarded::unguarded(JsValue::Null));
+    }
+    date_to_iso_string(interp, this, args)
 }
 
 // Setter methods
